@@ -44,6 +44,8 @@ Collections ==
       [name |-> "type-alias",   src |-> <<"type MyInt: Int", "def a: MyInt := 5", "print(a)", "def f(x: MyInt) -> Int => x + 1", "print(f(a))">>, out |-> <<"<any>">>],       \* (rejected today, as the repository's own sample type_alias_primitive)
       [name |-> "interface",    src |-> <<"type Shape", "    def area(self) -> Int", "class Sq(def side: Int): Shape", "    def area(self) -> Int => self.side * self.side",
                                           "def s: Shape := Sq(3)", "print(s.area())">>, out |-> <<"9">>],
+      [name |-> "interface-field", src |-> <<"type Named", "    def name: Str?", "    def age: Int?", "class Dog: Named", "    def label(self) -> Str => self.name ? \"unnamed\"",
+                                             "    def years(self) -> Int => self.age ? 3", "print(Dog().label())", "print(Dog().years())">>, out |-> <<"unnamed", "3">>],
       [name |-> "generic-class", src |-> <<"class Box[T](def item: T)", "    def get(self) -> T => self.item", "def b := Box(3)", "def v: Int := b.get()", "print(v + 1)">>, out |-> <<"<any>">>],      \* (a generic class cannot be constructed today)
       [name |-> "slices",       src |-> <<"def l := [10, 20, 30, 40, 50]", "def m: List[Int] := l[1 :: 3]", "print(m)", "def n: List[Int] := l[1 ::= 3]", "print(n)",
                                           "for e in l[0 ::= 4 :: 2] do print(e + 1)">>, out |-> <<"<any>">>],
